@@ -233,6 +233,57 @@ macro_rules! with_fresh_ctx {
 }
 pub(crate) use with_fresh_ctx;
 
+// Reuse inside one case (replayable): the context first evaluates a fixed "polluter" FDE, then the case's FDE;
+// the rows must equal those of a fresh context.  Three polluters: (0) a CIE with no initial register rule whose
+// FDE sets DW_CFA_GNU_args_size, three register rules and leaves an unmatched remember_state; (1) the same with
+// three initial rules in the CIE; (2) an FDE that fails mid-way (restore_state on an empty stack) after
+// changing the row.
+fn polluter_section(variant: u8) -> Vec<u8> {
+    fn entry(body: &[u8]) -> Vec<u8> {
+        let mut b = body.to_vec();
+        while (b.len() + 4) % 8 != 0 {
+            b.push(0); // DW_CFA_nop
+        }
+        let mut v = (b.len() as u32).to_le_bytes().to_vec();
+        v.extend_from_slice(&b);
+        v
+    }
+    let mut cie = vec![0xff, 0xff, 0xff, 0xff, 1, 0, 1, 0x78, 16, 0x0c, 7, 8];
+    if variant == 1 {
+        cie.extend_from_slice(&[0x90, 1, 0x83, 2, 0x86, 3]);
+    }
+    let mut out = entry(&cie);
+    let mut fde = vec![0, 0, 0, 0];
+    fde.extend_from_slice(&0x1000u64.to_le_bytes());
+    fde.extend_from_slice(&0x100u64.to_le_bytes());
+    fde.extend_from_slice(&[0x2e, 0x20, 0x8c, 4, 0x8d, 5, 0x8e, 6, 0x44, 0x0a, 0x0e, 0x10, 0x2e, 0x30, 0x44]);
+    if variant == 2 {
+        fde.extend_from_slice(&[0x0b, 0x0b, 0x0b]); // restore_state x3: the third finds an empty stack
+    }
+    out.extend_from_slice(&entry(&fde));
+    out
+}
+
+pub fn pollute<S: UnwindContextStorage<usize> + PartialEq>(ctx: &mut UnwindContext<usize, S>, variant: u8) {
+    let bytes = polluter_section(variant);
+    let mut df = DebugFrame::new(&bytes, gimli::RunTimeEndian::Little);
+    df.set_address_size(8);
+    let bases = BaseAddresses::default();
+    if let Ok(fdes) = parse_fdes(&df, &bases) {
+        for fde in &fdes {
+            if let Ok(mut table) = fde.rows(&df, &bases, ctx) {
+                let mut n = 0;
+                while let Ok(Some(_)) = table.next_row() {
+                    n += 1;
+                    if n > 16 {
+                        break;
+                    }
+                }
+            }
+        }
+    }
+}
+
 fn fmt_insn(i: &CallFrameInstruction<usize>) -> String {
     use CallFrameInstruction::*;
     match i {
@@ -328,7 +379,19 @@ pub fn run(t: &[&str]) -> String {
                 return format!("bad-case {} fdes", fdes.len());
             }
             let probes: Vec<u16> = t[6..].iter().map(|x| x.parse::<u16>().unwrap()).collect();
-            with_fresh_ctx!(t[1], ctx, rows_on(&df, &bases, &fdes[0], &mut *ctx, None, &probes))
+            let fresh = with_fresh_ctx!(t[1], ctx, rows_on(&df, &bases, &fdes[0], &mut *ctx, None, &probes));
+            for variant in 0..3u8 {
+                let reused = with_fresh_ctx!(t[1], ctx, {
+                    pollute(&mut *ctx, variant);
+                    rows_on(&df, &bases, &fdes[0], &mut *ctx, None, &probes)
+                });
+                if fresh != reused {
+                    return format!("reuse-mismatch after-polluter-{} fresh=[{}] reused=[{}]", variant, fresh, reused)
+                        .replace(' ', "_")
+                        .replacen("reuse-mismatch_", "reuse-mismatch ", 1);
+                }
+            }
+            fresh
         }
         "c06.at" => {
             let bytes = hex(t[5]);
